@@ -439,6 +439,26 @@ def sh_sub_err(S):
             + [REJECT, "f:", "load 8", "bnz f_ok", "err", "f_ok:"] + S[1] + ["retsub"])
 
 
+def sh_loop_call_exit(S):
+    """a loop whose head block is the call site; the callee either returns to the loop or approves itself"""
+    return (S[0] + ["int 0", "store 20", "loop:", "callsub f", "load 20", "int 1", "+", "dup", "store 20", "int 2", "<",
+                    "bnz loop"]
+            + S[2] + _end(S[2]) + [REJECT, "f:"] + S[1] + ["load 8", "bz f_ret", "int 1", "return", "f_ret:", "retsub"])
+
+
+def sh_loop_call(S):
+    """a loop whose head block is the call site of a plain subroutine"""
+    return (S[0] + ["int 0", "store 20", "loop:", "callsub f", "load 20", "int 1", "+", "dup", "store 20", "int 2", "<",
+                    "bnz loop"]
+            + S[2] + _end(S[2]) + [REJECT, "f:"] + S[1] + ["retsub"])
+
+
+def sh_flag_earlier_block(S):
+    """a flag computed in an earlier block is combined with the condition in a later block (`flag && cond` with the flag
+    unknown to the block-local reconstruction): only meaningful when S[1] is a plain `cond; assert`-style statement"""
+    return (["load 8", "load 9", "bz fl_join", "fl_join:"] + S[0] + S[1] + ["pop"] + S[2] + _end(S[2]) + [REJECT])
+
+
 def sh_label_after_callsub(S):
     return (["load 8", "bnz after"] + S[0] + ["callsub f", "after:"] + S[2] + _end(S[2])
             + [REJECT, "f:"] + S[1] + ["retsub"])
@@ -516,6 +536,8 @@ SHAPES: List[Shape] = [
     Shape("dead_after_return", 2, None, sh_dead_after_return),
     Shape("back_to_back", 2, 1, sh_back_to_back),
     Shape("empty_sub", 2, 1, sh_empty_sub),
+    Shape("loop_call_exit", 3, 2, sh_loop_call_exit),
+    Shape("loop_call", 3, 2, sh_loop_call),
 ]
 SHAPE_BY_NAME = {s.name: s for s in SHAPES}
 
